@@ -106,8 +106,9 @@ def run(pid, tier, replay):
         chk.add("proxy_signals", sum(len(s["signals"]) for s in prog.shapes))
         chk.add("traces_validated_against_impl", len(lines))
         objs += [json.loads(x) for x in lines]
+    ncached = cached_reads(chk)
     chk.cov["disagreements_checked"] = len(objs)
-    chk.cov["evaluations"] = len(objs)
+    chk.cov["evaluations"] = len(objs) + ncached
     for mode in ("async", "blocking"):
         for ev in ("PCall", "PGet", "PSet", "PSignal"):
             chk.cov["%s_%s" % (mode, ev)] = sum(1 for o in objs if o.get("mode") == mode and o["ev"] == ev)
@@ -126,16 +127,49 @@ def run(pid, tier, replay):
             chk.sample({k: o[k] for k in ("ev", "mode", "iface", "member", "prop", "signal", "args", "value", "ret", "items") if k in o})
     chk.assumptions += [
         "interface and proxy source are rendered from the same TLC-emitted shape by lib/iface_codegen.py (owned Rust types on both sides)",
-        "proxies are built with CacheProperties::No, so property reads go to the server (the cache is C31's subject)",
+        "the generated proxies are built with CacheProperties::No, so their property reads go to the server; reads through a caching proxy "
+        "(the default) are judged by the PropCache specification on TLC-enumerated received histories (cached_reads), as in C31",
         "blocking proxies run with real threads and are only trace-validated; a 600 s watchdog turns a hang into a tool failure",
         "random argument values come from the harness PRNG seeded with VERIF_SEED",
     ]
     return chk.finish()
 
 
+def cached_reads(chk):
+    """Property reads through a *caching* proxy (the default): what such a read returns is decided by spec/PropCache.tla
+    (the fold of the received history; other interfaces on the same path, other objects and strangers never count).
+    Cases, replay and validator are those of C31 (quick configuration); a disagreement is a C33 violation because the
+    proxy then does not report the server's value."""
+    from props import proxy_cache as pc, proxy_owner as po
+    binary = core.build("proxy")
+    cases_path = chk.path("cached_cases.ndjson")
+    g, n = core.tlc_generate("gen/Gen_PropCache.tla", "gen/Gen_PropCache_quick.cfg", cases_path, timeout=3000, workers=4)
+    chk.add_tlc(g)
+    obs_path = chk.path("cached_obs.ndjson")
+    po.run_sharded(binary, "c31", cases_path, obs_path, procs=4)
+    cases = po.load_cases(cases_path)
+    out, lines, _ = core.tlc_validate("trace/PropCacheTrace.tla", "trace/PropCacheTrace.cfg", obs_path, shards=6, timeout=3000, env=po.FAST_JVM)
+    po.classify(chk, "C33", out["MISMATCH"], lines, cases, lambda m, obs: "c33-cached-read:" + pc.key_cache(m, obs))
+    chk.add("cached_read_histories", len(lines))
+    chk.add("traces_validated_against_impl", len(lines))
+    return len(lines)
+
+
+def _cached_validate(chk, obs_path, cases, shards):
+    from props import proxy_cache as pc, proxy_owner as po
+    out, lines, _ = core.tlc_validate("trace/PropCacheTrace.tla", "trace/PropCacheTrace.cfg", obs_path, shards=shards, timeout=3000, env=po.FAST_JVM)
+    po.classify(chk, "C33", out["MISMATCH"], lines, cases, lambda m, obs: "c33-cached-read:" + pc.key_cache(m, obs))
+    return lines
+
+
 def do_replay(chk, path):
     with open(path) as f:
         rp = json.load(f)["replay"]
+    if "case" in rp and "kind" not in rp:
+        # a cached-read history (C31's machinery)
+        from props import proxy_cache as pc, proxy_owner as po
+        return po.do_replay(chk, "C33", core.build("proxy"), path, "c31",
+                            lambda c, pid, obs_path, cases, shards: _cached_validate(c, obs_path, cases, shards))
     chk.seed = rp.get("seed", chk.seed)
     prog = common.make_program(chk, 0, niface=rp["niface"], seed=rp["shape_seed"], ntree=1)
     allp = observe(chk, prog, 0, ROUNDS[rp.get("tier", "quick")])
